@@ -117,6 +117,7 @@ struct CprObs {
     Csr<double> App;          // handed to PPrecond
     Dense<double> Fpp;        // np x n, observed
     std::vector<std::vector<double>> x; // apply results on the test vectors
+    std::vector<LV> bound;              // rounding bound of each result w.r.t. the dense two-stage formula
 };
 
 static void set_S(Control &cS, const CprCase &cc) {
@@ -225,6 +226,7 @@ static CprObs run_cpr(Ctx &c, const CprCase &cc, const MatrixArg &Aarg, Params p
             VF_REQUIRE(std::abs(static_cast<ld>(x[i]) - ref[i]) <= 4 * bd[i], rep << ": apply(f)[" << i << "] = " << x[i] << ", S f + Scatter P(Fpp(f - A S f)) = " << static_cast<double>(ref[i])
                                                                                   << " (bound " << static_cast<double>(4 * bd[i]) << "); f=" << show(fs[q]));
         o.x.push_back(x);
+        o.bound.push_back(scalev(4, bd));
     }
     // ---- partial_update with the unchanged matrix leaves the action bitwise unchanged
     if (update_mode) {
@@ -279,6 +281,10 @@ static void cpr_both(Tape &t, Ctx &c, const CprCase &cc, bool drs) {
     Dense<double> as = to_dense<double>(os.App), ab = to_dense<double>(ob.App);
     for (ptrdiff_t i = 0; i < cc.nb; ++i) for (ptrdiff_t j = 0; j < cc.nb; ++j)
         VF_REQUIRE(as(i, j) == ab(i, j), "pressure matrix (" << i << "," << j << ") differs between scalar (" << as(i, j) << ") and block (" << ab(i, j) << ") input");
+    // same action: both are within their rounding bound of the same dense formula (the block SpMV sums in another order)
+    for (size_t q = 0; q < fs.size(); ++q) for (ptrdiff_t i = 0; i < cc.n; ++i)
+        VF_REQUIRE(std::abs(static_cast<ld>(os.x[q][i]) - ob.x[q][i]) <= os.bound[q][i] + ob.bound[q][i],
+                   "apply(f)[" << i << "] differs between scalar (" << os.x[q][i] << ") and block (" << ob.x[q][i] << ") input beyond rounding (" << static_cast<double>(os.bound[q][i] + ob.bound[q][i]) << ")");
 }
 
 template <template <class, class> class CPRT>
@@ -328,10 +334,10 @@ static void prop_cpr_drs_real(Tape &t, Ctx &c) { prop_cpr_real_update<amgcl::pre
 
 static std::vector<Prop> props() {
     return {
-        Prop("cpr", prop_cpr, 350, 3000, 100, 40, {1}, 2, 8),
-        Prop("cpr_drs", prop_cpr_drs, 250, 2000, 100, 40, {1}, 2, 8),
-        Prop("cpr_real_update", prop_cpr_real, 150, 1500, 100, 30, {1}, 1, 4),
-        Prop("cpr_drs_real_update", prop_cpr_drs_real, 100, 1000, 100, 30, {1}, 1, 4),
+        Prop("cpr", prop_cpr, 350, 20000, 100, 25, {1}, 2, 8),
+        Prop("cpr_drs", prop_cpr_drs, 250, 12000, 100, 25, {1}, 2, 8),
+        Prop("cpr_real_update", prop_cpr_real, 150, 8000, 100, 20, {1}, 1, 4),
+        Prop("cpr_drs_real_update", prop_cpr_drs_real, 100, 6000, 100, 20, {1}, 1, 4),
     };
 }
 static std::vector<Enum> enums() { return {}; }
